@@ -1118,6 +1118,8 @@ def tie(ctx):
             for k in lines_by_size[size]:
                 ctx.count("found:%d:%s" % (size, k.split("#")[0]))
         for size, kind, moves in load_fixtures():
+            if size not in lines_by_size and kind.endswith("-winding"):
+                lines_by_size[size] = {}  # shapes random play does not reach: always played
             if size in lines_by_size and kind not in lines_by_size[size]:
                 lines_by_size[size][kind] = moves
                 ctx.count("fixture:%d:%s" % (size, kind))
